@@ -19,8 +19,9 @@ run():
      Ed25519 signature / signed data / challenge / channel id, of WAMP-CRA keys, challenges, secrets, salts, and of
      TOTP tickets must give a rejection or a different signature.
 
-PBKDF2 through the Lean driver: all cases in the thorough tier; in the quick tier every case whose cost
-(iterations x blocks x long-key factor) is <= 2000 and every 5th of the rest — hashlib covers all of them in both tiers.
+PBKDF2 through the Lean driver: in the thorough tier all cases except two thirds of those with a secret longer than the HMAC
+block (65 octets, 1 KiB) at 4096 iterations; in the quick tier every case whose cost (iterations x blocks x long-key factor) is <= 2000 and every 5th of the
+rest — hashlib covers all of them in both tiers.
 
 Self-test 2026-09-23 (single edits in a scratch copy of /repo/src, `VERIF_REPO=/tmp/c19mut ./check C19 --tier quick`; every
 exit 1 came with concrete replay cases (the case dict of the first failing input per key); a replay of M5's case gives exit 1
@@ -46,6 +47,10 @@ on the mutated copy and exit 0 on /repo):
   H1  compute_wcs via hmac.digest / base64.b64encode           exit 0
   H2  check_totp as any(...)                                   exit 0
   H3  on_welcome compares bytes with ==                        exit 0
+  S1  util.xor as integer XOR with res.to_bytes((res.bit_length()+7)//8) (independently seeded; drops leading zero octets)
+      MISSED by the first version (random operands never share a leading octet). Now exit 1 through the boundary strata:
+      xor-result-length-differs / xor-differs-from-octetwise-xor (xor 'C' 'C' -> b''), cryptosign-answer-length-differs (190 hex
+      characters), scram-proof-length-differs / scram-client-proof-differs (31-octet proof, corpus/C19/scram-proof-leading-zero-1a)
 (the four KNOWN-FINDING lines are printed in every run, mutated or not)
 """
 import base64
@@ -197,6 +202,19 @@ def gen_cases(ctx):
         cases.append({"op": "xor", "a": rng.randbytes(n).hex(), "b": rng.randbytes(n).hex()})
     for a, b in ((0, 1), (1, 0), (32, 31), (31, 32), (32, 64)):
         cases.append({"op": "xor", "a": rng.randbytes(a).hex(), "b": rng.randbytes(b).hex()})
+    # boundary strata: operands sharing their first 1, 2, n-1 and all n octets (result with leading zero octets / all
+    # zero), one operand all zero, both all zero, a leading zero octet in one operand only; every length 0..64
+    for n in range(0, 65):
+        a = rng.randbytes(n)
+        for k in sorted({1, 2, n - 1, n}):
+            if 0 < k <= n:
+                tail = bytes((x ^ (1 + rng.randrange(255))) for x in a[k:])      # differs in every later octet
+                cases.append({"op": "xor", "a": a.hex(), "b": (a[:k] + tail).hex(), "stratum": "share-first-" + ("all" if k == n else "all-but-one" if k == n - 1 and k > 2 else str(k))})
+        cases.append({"op": "xor", "a": bytes(n).hex(), "b": rng.randbytes(n).hex(), "stratum": "one-operand-zero"})
+        cases.append({"op": "xor", "a": rng.randbytes(n).hex(), "b": bytes(n).hex(), "stratum": "one-operand-zero"})
+        cases.append({"op": "xor", "a": bytes(n).hex(), "b": bytes(n).hex(), "stratum": "both-zero"})
+        if n:
+            cases.append({"op": "xor", "a": (b"\0" + rng.randbytes(n - 1)).hex(), "b": (b"\0" + rng.randbytes(n - 1)).hex(), "stratum": "share-first-1"})
     # --- pbkdf2 (bytes API): full lattice
     for s in secrets:
         for sl in salt_lens:
@@ -355,6 +373,18 @@ def gen_cases(ctx):
                 if k % (7 if quick else 2) == 0:
                     c["flips"] = True
                 cases.append(c)
+    # boundary stratum: the channel id shares its first k = 1..32 octets with the challenge (k = 32: identical, the signed
+    # data is all zero), so challenge XOR channel id starts with k zero octets
+    for k in range(1, 33):
+        chal = rng.randbytes(32)
+        cid = chal[:k] + bytes((x ^ (1 + rng.randrange(255))) for x in chal[k:])
+        c = {"op": "cryptosign", "seed": seeds[3 + k % (len(seeds) - 3)].hex(), "challenge": th(chal.hex()), "channel_id": cid.hex(),
+             "binding": "tls-unique", "via": "authenticator" if k % 2 else "key", "stratum": f"cid-shares-first-{k}"}
+        if k in (1, 32):
+            c["flips"] = True
+        cases.append(c)
+    cases.append({"op": "cryptosign", "seed": seeds[3].hex(), "challenge": th("00" * 32), "channel_id": (b"\0" + rng.randbytes(31)).hex(),
+                  "binding": "tls-unique", "via": "key", "stratum": "cid-shares-first-1"})
     s0 = seeds[3]
     for chal, cid, binding, method in (("00" * 31, None, None, "cryptosign"), ("00" * 33, None, None, "cryptosign"),
                                        ("zz" * 32, None, None, "cryptosign"), ("00" * 32, None, "tls-unique", "cryptosign"),
@@ -436,12 +466,16 @@ def judge_simple(J, cases, results):
             ref = ("ok", bytes(x ^ y for x, y in zip(a, b)).hex()) if len(a) == len(b) else ("err", "Exception")
             got = ("err", r["err"]) if "err" in r else ("ok", r["ok"])
 
-            def cb(ans, c=c, got=got, ref=ref):
+            def cb(ans, c=c, got=got, ref=ref, a=a):
                 l = lean_exc(ans[0], text=False)
                 if l != ref:
                     J.refs_disagree("xor", c, l, ref)
+                if got[0] == "ok" and len(got[1]) != 2 * len(a):
+                    J.violation("xor-result-length-differs", f"util.xor of two {len(a)}-octet strings returned {len(got[1]) // 2} octets "
+                                "(xor_length: the result has the length of the operands)", c, got)
                 if got != l:
                     J.violation("xor-differs-from-octetwise-xor", f"util.xor returned {got}, expected {l}", c, got)
+            res.count("xor:" + c.get("stratum", "random" if len(a) == len(b) else "unequal-lengths"))
             J.ask([f"auth.xor {hx(a)} {hx(b)}"], cb)
         elif op == "pbkdf2":
             data, salt = bytes.fromhex(c["data"]), bytes.fromhex(c["salt"])
@@ -458,7 +492,7 @@ def judge_simple(J, cases, results):
             if got != ref:
                 J.violation("pbkdf2-differs-from-pbkdf2-hmac-sha256", f"pbkdf2(iters={c['iterations']}, keylen={c['keylen']}, "
                             f"|salt|={len(salt)}, |data|={len(data)}) = {got[1][:32]}.., RFC 8018 gives {ref[1][:32]}..", c, got)
-            if quick and lean_cost(c) > 2000 and idx % 5:
+            if (quick and lean_cost(c) > 2000 and idx % 5) or (not quick and lean_cost(c) > 20000 and idx % 3):
                 skip += 1
                 continue
             res.count("pbkdf2_via_lean")
@@ -573,7 +607,7 @@ def judge_simple(J, cases, results):
             continue
         res.evaluations += 1
         res.distinct.add((op, core.sha(json.dumps(c, sort_keys=True))[:16]))
-    res.count("pbkdf2_hashlib_only(quick tier: high-iteration cases not sent to the Lean driver)", skip)
+    res.count("pbkdf2_hashlib_only(high-cost cases not sent to the Lean driver)", skip)
 
 
 def judge_totp(J, cases, results):
@@ -754,6 +788,15 @@ def judge_scram(J, cases, results):
             proof_raw = base64.b64decode(proof_text, validate=True)
         except Exception:
             proof_raw = b""
+        if len(proof_raw) != 32:
+            J.violation("scram-proof-length-differs", f"the client proof decodes to {len(proof_raw)} octets, not 32 (ClientKey XOR ClientSignature, "
+                        f"expected {ref_proof})", c, proof_text)
+        nz = len(csig) - len(bytes(a ^ b for a, b in zip(ck, csig)).lstrip(b"\0"))
+        if nz:
+            res.count(f"scram:proof-with-{nz}-leading-zero-octet(s)")
+        if c.get("stratum") and not nz:
+            res.notes.append("corpus/generated SCRAM case no longer has a leading zero octet in its proof (KDF convention changed?): "
+                             + json.dumps(c)[:200])
         lines.append(f"auth.scram.verify {hx(sk)} {hx(am_ref.encode())} {hx(proof_raw)}")
         lines.append(f"auth.scram.verify {hx(sk_raw)} {hx(am_ref.encode())} {hx(proof_raw)}")
         wl = r.get("welcome", [])
@@ -840,6 +883,12 @@ def judge_cryptosign(J, cases, results, expected):
             J.violation(f"cryptosign-raises:{ans['err']}", f"sign_challenge raised {ans['err']} on a valid challenge", c, ans)
             continue
         text = bytes.fromhex(ans["ok"]).decode()
+        if c.get("stratum"):
+            res.count("cryptosign:cid-shares-leading-octets-with-challenge")
+        if ans.get("type") == "str" and len(text) != 192:
+            J.violation("cryptosign-answer-length-differs", f"the answer has {len(text)} hex characters, not 192 (64-octet signature + 32-octet "
+                        f"signed data; expected data {data})", c, text)
+            continue
         if ans.get("type") != "str" or len(text) != 192 or text != text.lower():
             J.violation("cryptosign-answer-shape", f"answer {text[:20]}.. type {ans.get('type')} len {len(text)}", c, text)
             continue
@@ -870,6 +919,41 @@ def judge_cryptosign(J, cases, results, expected):
                 J.violation("cryptosign-answer-format", f"answer is not hex(sig) ++ hex(data): model {a[0][:40]}..", c, text)
         J.ask([f"auth.cryptosign.answer {text[:128]} {hx(bytes.fromhex(c['challenge']))} {cid} {b or 'none'}"], cb)
         res.distinct.add(("cryptosign", c["seed"][:16], c["challenge"][:16], c["binding"], c["via"]))
+
+
+def corpus_cases():
+    """corpus/C19/*.json: fixed regression inputs (replayed first on every run)"""
+    return [json.loads(f.read_text())["replay"] for f in sorted((core.VERIF / "corpus" / PROP).glob("*.json"))]
+
+
+def scram_leading_zero_cases(ctx):
+    """SCRAM inputs whose ClientKey and ClientSignature share the leading octet (the proof starts with a zero octet).
+    The salted password of a probe case is taken from the worker (the harness has no Argon2), then the client nonce is
+    searched with hashlib (about 256 trials per hit). Independent of the corpus, so the stratum survives a change of the
+    KDF convention."""
+    rng = ctx.rng
+    out = []
+    for authid, pw in (("user", "pw" + str(rng.randrange(10 ** 6))), ("peter@example.com", "pässwörd✓" + str(rng.randrange(10 ** 6)))):
+        salt = base64.b64encode(rng.randbytes(16)).decode()
+        snonce = base64.b64encode(rng.randbytes(16)).decode()
+        probe = {"op": "scram", "authid": th(authid), "password": th(pw), "nonce_random": bytes(16).hex(),
+                 "extra": {"nonce": th(snonce), "kdf": th("argon2id-13"), "salt": th(salt)},
+                 "extra_raw": {"iterations": 1, "memory": 8}, "welcome": None}
+        r = run_worker([probe], "twisted")["results"][0]
+        if "salted_password" not in r:
+            continue
+        sp = bytes.fromhex(r["salted_password"])
+        ck = hmac.new(sp, b"Client Key", hashlib.sha256).digest()
+        sk = hashlib.sha256(ck).digest()
+        for _ in range(20000):
+            rnd = rng.randbytes(16)
+            cn = base64.b64encode(rnd).decode()
+            am = f"n={authid},r={cn},r={snonce},s={salt},i=1,c=,r={snonce}".encode()
+            if hmac.new(sk, am, hashlib.sha256).digest()[0] == ck[0]:
+                out.append(dict(probe, nonce_random=rnd.hex(), welcome="few",
+                                stratum="ClientKey and ClientSignature share their first octet (searched at run time)"))
+                break
+    return out
 
 
 def reference_selftest(ctx, res):
@@ -913,6 +997,11 @@ def run(ctx):
         "single-bit alterations of its base64 text, prefixes, extension, empty, junk-interleaved, client signature, swapped label; cryptosign over "
         "seeds (RFC 8032 key, zero, ones, random) x binding on/off x channel ids x key/authenticator entry points x hex case, all 512+256 "
         "single-bit alterations of signature and data, all 256+256 of challenge and channel id, malformed challenges/ids/methods. "
+        "BOUNDARY STRATA for every path into util.xor: direct xor with operands sharing their first 1, 2, n-1, all n octets, one/both operands "
+        "all zero, for every length 0..64 (result length is checked explicitly); cryptosign with channel ids sharing their first k = 1..32 "
+        "octets with the challenge (k = 32: all-zero signed data; answer length 192 checked explicitly); SCRAM inputs whose ClientKey and "
+        "ClientSignature share the leading octet(s) — three fixed corpus cases (corpus/C19, 1 and 2 leading zero octets) plus two searched at "
+        "run time with hashlib over the client nonce (proof length 32 checked explicitly). "
         "non-trivial = distinct (op, arguments) that reached a comparison with the Spec")
     if not ctx.replay_path:
         reference_selftest(ctx, res)
@@ -921,7 +1010,8 @@ def run(ctx):
         rp.pop("observed", None)
         cases = [rp]
     else:
-        cases = gen_cases(ctx)
+        cases = corpus_cases() + gen_cases(ctx) + scram_leading_zero_cases(ctx)
+        res.count("corpus_cases", len(corpus_cases()))
     # driver pre-pass: the data a cryptosign client must sign
     pre = []
     for c in cases:
@@ -958,8 +1048,9 @@ def run(ctx):
     res.notes.append("libraries: " + json.dumps(libs, sort_keys=True))
     res.notes.append("independent Argon2id: " + ("cryptography/OpenSSL (different implementation from argon2-cffi)" if libs.get("independent_argon2id")
                                                   else "NOT AVAILABLE (argon2 cases not judged against an independent implementation)"))
-    res.notes.append("PBKDF2: hashlib (OpenSSL via CPython) is compared on every case; the Lean reference on all cases in the thorough tier and on "
-                     "the low-cost ones plus every 5th high-iteration case in the quick tier (see input_distribution pbkdf2_via_lean)")
+    res.notes.append("PBKDF2: hashlib (OpenSSL via CPython) is compared on every case; the Lean reference on all cases but two thirds of those with a secret longer than the "
+                     "HMAC block (65 octets, 1 KiB) at 4096 iterations in the thorough tier and on the low-cost ones plus every 5th high-iteration case in the quick tier "
+                     "(see input_distribution pbkdf2_via_lean / pbkdf2_hashlib_only)")
     J = Judge(ctx, res)
     judge_simple(J, cases, results)
     judge_totp(J, cases, results)
